@@ -121,6 +121,10 @@ Theorem C20_refuted_F20k : guard_F20k [w_a_b] = false /\ guard_F20m [w_a_b] = tr
 Proof. exact refuted_F20k. Qed.
 Print Assumptions C20_refuted_F20k.
 
+Example C20_F20k_duplicate : build_keys [w_a_b; w_Pet] = Some [([65;98], 0%nat); (w_Pet, 1%nat); (w_a_b, 0%nat)].
+Proof. exact F20k_duplicate. Qed.
+Print Assumptions C20_F20k_duplicate.
+
 Theorem C20_refuted_F20m : guard_F20k [w_foo_bar; w_FooBar] = true /\ guard_F20m [w_foo_bar; w_FooBar] = false
   /\ build_keys [w_foo_bar; w_FooBar] = Some [(w_FooBar, 0%nat)].
 Proof. exact refuted_F20m. Qed.
